@@ -373,14 +373,15 @@ func (c *certificateV2) Copy() Certificate {
 }
 
 func (c *certificateV2) fromTBSCertificate(t *TBSCertificate) error {
+	// The wire format carries whole seconds: keep exactly what will decode back
 	c.details = detailsV2{
 		name:           t.Name,
 		networks:       t.Networks,
 		unsafeNetworks: t.UnsafeNetworks,
 		groups:         t.Groups,
 		isCA:           t.IsCA,
-		notBefore:      t.NotBefore,
-		notAfter:       t.NotAfter,
+		notBefore:      time.Unix(t.NotBefore.Unix(), 0),
+		notAfter:       time.Unix(t.NotAfter.Unix(), 0),
 		issuer:         t.issuer,
 	}
 	c.curve = t.Curve
